@@ -215,7 +215,27 @@ class Models:
             return [(None, ('panic', c))]
 
         # ---------------- crate-local bodies
-        return self.local(m, st, callee, c, argv)
+        r = self.local(m, st, callee, c, argv)
+        if r is not None:
+            return r
+        # ---------------- external pure numeric functions (e.g. other statrs distributions): uninterpreted application.
+        # Sound for validity (the obligation must then hold for every value of the function); a refutation is replayed natively.
+        fr = st['frames'][fid]['fn']
+        if re.search(r'statrs|distribution::', callee) or re.search(r'::(cdf|pdf|sf|inverse_cdf|ln_pdf|mean|variance|std_dev)$', c):
+            flat = []
+            for a in argv:
+                v = d(a)
+                if v[0] in ('f', 'i'):
+                    flat.append(v[1] if v[0] == 'f' else T.mk('i2f', v[1]))
+                elif v[0] == 'adt':
+                    flat += [x[1] if x[0] == 'f' else T.mk('i2f', x[1]) for x in v[3] if x[0] in ('f', 'i')]
+            name = 'ext_' + re.sub(r'\W+', '_', c)[-40:]
+            if c.endswith('::new'):
+                self.note('external constructor %s: Ok(opaque value carrying its arguments)' % c)
+                return one(ok(('adt', 'ExtDist_' + re.sub(r'\W+', '_', c.split('::')[-2]), 0, [('f', x) for x in flat])))
+            self.note('external function %s: uninterpreted' % c)
+            return one(('f', T.mk('app', name, *flat)))
+        return None
 
     def local(self, m, st, callee, c, argv):
         nargs = len(argv)
